@@ -14,8 +14,8 @@ from harness import fw
 
 META = {
     "id": "C18",
-    "technique": "Coq proof (induction over tick histories; per-style variants and invariants) + extracted-model correspondence with the real LCD object and with the emitted C++ animation helpers run under the mock core + trace oracle",
-    "level_text": "Theorems C18_* (coq/Props/C18.v) are proved for all texts, widths >= 1, speeds, loop flags and all tick-time sequences about Gallina transcriptions of LCD.animate/LCD.tick and of the four __redu_lcd_start_*/__redu_lcd_tick_* template pairs plus the tick-injection rule; the models are run side by side with the real host object (buffer assignments and every _AnimationState field after each tick) and with the compiled firmware (cell writes and DDRAM dump per loop() pass).",
+    "technique": "Coq proof (induction over tick histories; per-style variants and invariants; finite obligations over tables regenerated from the source) + extracted-model correspondence with the real LCD object and with the emitted C++ animation helpers run under the mock core + trace oracle",
+    "level_text": "Theorems C18_* (coq/Props/C18.v) are proved for all texts, widths >= 1, speeds, loop flags and all tick-time sequences about Gallina transcriptions of LCD.animate/LCD.tick and of the four __redu_lcd_start_*/__redu_lcd_tick_* template pairs plus the tick-injection rule, and (C18_tables_complete) about the style/helper tables and helper texts re-read from emitter.py, parser.py and LCD.py on every run; the models are run side by side with the real host object (buffer assignments and every _AnimationState field after each tick) and with the compiled firmware (cell writes and DDRAM dump per loop() pass).",
     "level_note": "Trusted: Coq kernel, extraction, OCaml driver, the mock LiquidCrystal/LiquidCrystal_I2C (cursor-addressed DDRAM) and its virtual millis(), g++. The theorems are about the models; the correspondence bounds their distance from LCD.py / emitter.py. Tick injection is proved only for animate calls placed before the main loop (an animate inside `while True:` is never ticked: known finding).",
     "design_ref": "DESIGN.md section 4 C18 (and C05 for tick injection)",
 }
@@ -321,6 +321,8 @@ def gen_host_cases(ctx):
     cases.append({"cols": 0, "rows": 2, "i2c": False, "anims": [], "nows": [], "tag": "bad-geometry"})
     cases.append({"cols": 16, "rows": 0, "i2c": False, "anims": [], "nows": [], "tag": "bad-geometry"})
     cases.append({"cols": 8, "rows": 2, "i2c": False, "anims": [["scroll", 0, "abc", 100, True]], "nows": [0, 0, 0, 5, 5, 104, 105], "tag": "zero-clock"})
+    cases.append({"cols": 8, "rows": 2, "i2c": True, "anims": [["typewriter", 1, "abcd", 50, False], ["bounce", 0, "xy", 50, True]],
+                  "nows": [0, 0, 10, 20, 60, 61, 111], "tick_none": True, "tag": "zero-clock"})
     return cases
 
 
@@ -661,13 +663,28 @@ def run_device(ctx, stats):
 # tick injection: emitted loop() head vs the emission model; known finding replay
 # --------------------------------------------------------------------------------------------
 
-def injection_script(setup_sites, loop_sites, names):
+def injection_script(setup_sites, loop_sites, names, mode="plain"):
+    """mode: plain | noloop (script without `while True:`) | if (setup sites alternate between the two
+    branches of an if/else) | for (setup sites inside a counted loop) - all before the main loop"""
     L = ["from Reduino import target", "from Reduino.Displays import LCD", 'target("/dev/ttyUSB0")']
     for n in names:
         L.append(f"{n} = LCD(rs=12, en=11, d4=5, d5=4, d6=3, d7=2, cols=8, rows=2)")
     L.append("started = 0")
-    for (n, st) in setup_sites:
-        L.append(f'{n}.animate("{st}", 0, "HELLO", speed_ms=0, loop=True)')
+    calls = [f'{n}.animate("{st}", 0, "HELLO", speed_ms=0, loop=True)' for (n, st) in setup_sites]
+    if mode == "if" and calls:
+        half = (len(calls) + 1) // 2
+        L.append("if started == 0:")
+        L += ["    " + c for c in calls[:half]]
+        if calls[half:]:
+            L.append("else:")
+            L += ["    " + c for c in calls[half:]]
+    elif mode == "for" and calls:
+        L.append("for k in range(2):")
+        L += ["    " + c for c in calls]
+    else:
+        L += calls
+    if mode == "noloop":
+        return "\n".join(L) + "\n"
     L.append("while True:")
     if loop_sites:
         L.append("    if started == 0:")
@@ -682,20 +699,25 @@ def injection_script(setup_sites, loop_sites, names):
 def run_injection(ctx, stats):
     rng = ctx.rng
     names = ["pa", "pb", "pc"]
-    shapes = [([("pa", "scroll")], []), ([("pb", "blink"), ("pa", "bounce"), ("pb", "scroll")], []),
-              ([("pc", "typewriter"), ("pa", "scroll"), ("pa", "blink"), ("pb", "bounce")], []),
-              ([], [("pa", "scroll")]), ([("pa", "blink")], [("pa", "scroll")]), ([("pb", "scroll")], [("pa", "bounce"), ("pb", "blink")])]
-    for _ in range(6):
+    shapes = [([("pa", "scroll")], [], "plain"), ([("pb", "blink"), ("pa", "bounce"), ("pb", "scroll")], [], "plain"),
+              ([("pc", "typewriter"), ("pa", "scroll"), ("pa", "blink"), ("pb", "bounce")], [], "plain"),
+              ([], [("pa", "scroll")], "plain"), ([("pa", "blink")], [("pa", "scroll")], "plain"),
+              ([("pb", "scroll")], [("pa", "bounce"), ("pb", "blink")], "plain"),
+              ([("pa", "scroll"), ("pb", "typewriter")], [], "noloop"),
+              ([("pa", "scroll"), ("pa", "blink"), ("pb", "bounce")], [], "if"),
+              ([("pc", "bounce"), ("pa", "typewriter")], [], "for")]
+    for _ in range(12 if ctx.tier == "thorough" else 6):
         ss = [(rng.choice(names), rng.choice(STYLES)) for _ in range(rng.randint(0, 4))]
         ls = [(rng.choice(names), rng.choice(STYLES)) for _ in range(rng.randint(0, 2))] if rng.random() < 0.5 else []
+        mode = "plain" if ls else rng.choice(["plain", "noloop", "if", "for"])
         if ss or ls:
-            shapes.append((ss, ls))
-    srcs = [injection_script(a, b, names) for a, b in shapes]
+            shapes.append((ss, ls, mode))
+    srcs = [injection_script(a, b, names, mode) for a, b, mode in shapes]
     tr = fw.transpile_many(srcs)
     nid = {n: i for i, n in enumerate(names)}
-    mcases = [[2, [[nid[n], CODE[s]] for n, s in a], [[nid[n], CODE[s]] for n, s in b]] for a, b in shapes]
+    mcases = [[2, [[nid[n], CODE[s]] for n, s in a], [[nid[n], CODE[s]] for n, s in b]] for a, b, _ in shapes]
     model = ctx.model(mcases) if ctx.exe else [None] * len(shapes)
-    for (a, b), src, t, m in zip(shapes, srcs, tr, model):
+    for (a, b, mode), src, t, m in zip(shapes, srcs, tr, model):
         if not t["ok"]:
             if not b:
                 ctx.fail("transpiler rejected a script with lcd.animate before the main loop", {"script": src}, "C++", t, key="dev-transpile")
@@ -710,12 +732,16 @@ def run_injection(ctx, stats):
             got = sorted([t_[0], t_[2]] for t_ in ticks)
             if want != got:
                 ctx.fail("loop() does not tick every animation started before the main loop exactly once", {"script": src}, want, got, key="dev-tick-injected")
+            if re.search(r"\bdelay(?:Microseconds)?\s*\(", loop_txt):
+                ctx.fail("loop() of a script that never sleeps contains a delay call", {"script": src}, "no delay", "delay(...) in loop()", key="dev-delay")
         if m is not None:
             if m[0] != 0 or [list(x) for x in m[1]] != ticks:
                 ctx.disagree("tick injection: emitted tick calls vs emission model", {"script": src}, m, ticks)
             elif sorted([x[0], x[1]] for x in m[2]) != decl:
                 ctx.disagree("tick injection: declared animation state variables vs emission model", {"script": src}, m[2], decl)
         stats["injection_shapes"] = stats.get("injection_shapes", 0) + 1
+        stats.setdefault("injection_modes", {})
+        stats["injection_modes"][mode] = stats["injection_modes"].get(mode, 0) + 1
 
 
 def replay_finding(f):
